@@ -3,7 +3,7 @@
     python c15_timing.py <shape> <n>        -> one JSON line {"shape","n","times":{op: cpu seconds},"errors":{op: kind}}
 
 Builds one reference-graph shape of size n through the public API and measures the CPU time of every operation the
-property names: to_xmi, to_json, load_cas_from_xmi, load_cas_from_json, typecheck, select (select/select_all/
+property names: to_xmi, to_json (type systems FULL and MINIMAL), load_cas_from_xmi, load_cas_from_json, typecheck, select (select/select_all/
 select_covered + subsumes/is_instance_of on the deep type tree), cas_to_comparable_text.  An operation that raises
 (e.g. XMI refuses a cyclic inline list) has terminated: the time is reported together with the error kind.
 Nothing here judges; the caps are applied by harness/props/C15.py."""
@@ -13,7 +13,7 @@ import time
 import warnings
 
 SHAPES = ["chain", "cycle", "selfref", "diamond", "inline_array", "shared_array", "inline_list", "shared_list",
-          "cyclic_inline_list", "cyclic_shared_list", "many_small_collections", "top_fan", "deep_types"]
+          "cyclic_inline_list", "cyclic_shared_list", "many_small_collections", "top_fan", "deep_types", "type_ref_ladder"]
 DEPTH = 60
 
 
@@ -46,6 +46,17 @@ def mklist(ts, heads, cyclic=False):
     if nodes:
         nodes[-1].tail = nodes[0] if cyclic else em()
     return nodes[0] if nodes else em()
+
+
+def add_ladder(ts, depth):
+    """Types r.L0 .. r.L<depth>; every level refers to the next level through two features and an FSArray element type."""
+    for i in range(depth + 1):
+        ts.create_type("r.L%d" % i, "uima.cas.TOP")
+    for i in range(depth):
+        t = ts.get_type("r.L%d" % i)
+        ts.create_feature(t, "a", "r.L%d" % (i + 1))
+        ts.create_feature(t, "b", "r.L%d" % (i + 1))
+        ts.create_feature(t, "arr", "uima.cas.FSArray", elementType="r.L%d" % (i + 1))
 
 
 def build(cassis, shape, n):
@@ -118,13 +129,20 @@ def build(cassis, shape, n):
             o.lst = mklist(ts, [targets[(i + 2) % 10], o, targets[(i + 2) % 10]])
             o.a = targets[i % 10]
             cas.add(o)
+    elif shape == "type_ref_ladder":
+        add_ladder(ts, n)
+        top = ts.get_type("r.L0")()
+        top.a = ts.get_type("r.L1")()
+        cas.add(top)
     elif shape == "top_fan":
         hub = Node()
         arrs = []
+        Top = ts.get_type("uima.cas.TOP")
         for i in range(n // 4):
             x = Node(n=i)
-            x.top = hub
+            x.top = hub if i % 3 else Top()                    # instances of uima.cas.TOP itself, referenced only
             arrs.append(Arr(elements=[x, hub, x]))
+        cas.add(Top())
         outer = Arr(elements=arrs + arrs)
         hub.top = outer
         cas.add(hub)
@@ -157,12 +175,14 @@ def main():
     shape, n = sys.argv[1], int(sys.argv[2])
     sys.setrecursionlimit(max(sys.getrecursionlimit(), 3000))
     import cassis
+    from cassis.typesystem import TypeSystemMode
     from cassis.util import cas_to_comparable_text
     ts, cas = build(cassis, shape, n)
     times, errors = {}, {}
     timed(times, errors, "typecheck", lambda: cas.typecheck())
     xmi = timed(times, errors, "to_xmi", lambda: cas.to_xmi())
     js = timed(times, errors, "to_json", lambda: cas.to_json())
+    timed(times, errors, "to_json_minimal", lambda: cas.to_json(type_system_mode=TypeSystemMode.MINIMAL))
     if xmi is not None:
         timed(times, errors, "load_cas_from_xmi", lambda: cassis.load_cas_from_xmi(xmi, typesystem=ts))
     if js is not None:
